@@ -235,6 +235,147 @@ Proof.
 Qed.
 End WriterFacts.
 
+(* ================= the messages of a run against the property ================= *)
+Section SpecFacts.
+Variable dur : N.
+
+(* ---- balance *)
+Lemma bal_failures s t fs : forall r,
+  balanced_go (Some s) (Some (t_name t)) (map (failure_msg t) fs ++ r) = balanced_go (Some s) (Some (t_name t)) r.
+Proof.
+  induction fs as [|[[f l] m] fs IH]; intro r; [reflexivity|].
+  cbn [map app]. unfold failure_msg at 1. cbn. rewrite bytes_eqb_refl. cbn. apply IH.
+Qed.
+Lemma bal_test s t r : balanced_go (Some s) None (test_msgs dur t ++ r) = balanced_go (Some s) None r.
+Proof.
+  unfold test_msgs. cbn [app]. 
+  change (balanced_go (Some s) None (mk_named L_testStarted (t_name t) :: ?x)) with (balanced_go (Some s) (Some (t_name t)) x).
+  rewrite <- !app_assoc.
+  assert (Hi : forall x, balanced_go (Some s) (Some (t_name t)) ((if t_ignored t then [mk_named L_testIgnored (t_name t)] else []) ++ x)
+                         = balanced_go (Some s) (Some (t_name t)) x).
+  { intro x. destruct (t_ignored t); [|reflexivity]. cbn. rewrite bytes_eqb_refl. reflexivity. }
+  rewrite Hi, bal_failures. cbn. rewrite bytes_eqb_refl. reflexivity.
+Qed.
+Lemma bal_tests s g : forall r, balanced_go (Some s) None (flat_map (test_msgs dur) g ++ r) = balanced_go (Some s) None r.
+Proof.
+  induction g as [|t g IH]; intro r; [reflexivity|]. cbn [flat_map]. rewrite <- app_assoc, bal_test. apply IH.
+Qed.
+Lemma bal_suite g r : balanced_go None None (suite_msgs dur g ++ r) = balanced_go None None r.
+Proof.
+  unfold suite_msgs. cbn [app].
+  change (balanced_go None None (mk_named L_testSuiteStarted (group_name g) :: ?x)) with (balanced_go (Some (group_name g)) None x).
+  rewrite <- app_assoc, bal_tests. cbn. rewrite bytes_eqb_refl. reflexivity.
+Qed.
+Lemma balanced_messages ts : balanced (messages_of dur ts) = true.
+Proof.
+  unfold balanced, messages_of. induction (segments ts) as [|g gs IH]; [reflexivity|].
+  cbn [flat_map]. rewrite bal_suite. exact IH.
+Qed.
+
+(* ---- faithfulness *)
+Lemma ends_with_app p s : ends_with (p ++ s) s = true.
+Proof.
+  unfold ends_with. rewrite app_length, Nat.add_sub, skipn_app, skipn_all, Nat.sub_diag. cbn. apply bytes_eqb_refl.
+Qed.
+Lemma contains_mid a t b : contains (a ++ t ++ b) t = true.
+Proof. apply contains_spec. exists a, b. reflexivity. Qed.
+
+Lemma failure_ok_msg t f : failure_ok t f (failure_msg t f) = true.
+Proof.
+  destruct f as [[file line] msg]. unfold failure_ok, failure_msg.
+  change (is_msg L_testFailed _) with true.
+  unfold attr_is, get_attr. cbn [m_attrs find fst snd].
+  change (bytes_eqb L_name L_name) with true. change (bytes_eqb L_name L_details) with false.
+  change (bytes_eqb L_message L_details) with false. change (bytes_eqb L_details L_details) with true.
+  change (bytes_eqb L_name L_message) with false. change (bytes_eqb L_message L_message) with true.
+  cbn [fst snd]. rewrite !bytes_eqb_refl. cbn [andb].
+  unfold failure_text.
+  rewrite ends_with_app. cbn [andb].
+  destruct (negb (bytes_eqb (t_file t) file) || (line <? t_line t)); [|reflexivity].
+  unfold loc_text.
+  replace ((L_TEST_failed ++ t_file t ++ [58] ++ dec (t_line t) ++ L_close_colon) ++ file ++ [58] ++ dec line)
+    with (L_TEST_failed ++ (t_file t ++ [58] ++ dec (t_line t)) ++ (L_close_colon ++ file ++ [58] ++ dec line))
+    by (repeat (rewrite <- app_assoc || rewrite <- app_comm_cons); reflexivity).
+  apply contains_mid.
+Qed.
+Lemma take_failures_msgs t fs : forall r, take_failures t fs (map (failure_msg t) fs ++ r) = Some r.
+Proof.
+  induction fs as [|f fs IH]; intro r; [reflexivity|].
+  cbn [map app take_failures]. rewrite failure_ok_msg. apply IH.
+Qed.
+Lemma attr_is_named k n : attr_is L_name (mk_named k n) n = true.
+Proof. unfold attr_is, get_attr, mk_named. cbn [m_attrs find fst snd]. change (bytes_eqb L_name L_name) with true. cbn. apply bytes_eqb_refl. Qed.
+Lemma take_test_msgs t r : take_test t (test_msgs dur t ++ r) = Some r.
+Proof.
+  unfold test_msgs, take_test. cbn [app].
+  change (is_msg L_testStarted (mk_named L_testStarted (t_name t))) with true. rewrite attr_is_named. cbn [andb].
+  rewrite <- !app_assoc.
+  destruct (t_ignored t) eqn:Ei; cbn [app].
+  - change (is_msg L_testIgnored (mk_named L_testIgnored (t_name t))) with true. rewrite attr_is_named. cbn [andb].
+    rewrite take_failures_msgs.
+    change (is_msg L_testFinished _) with true.
+    unfold attr_is, get_attr. cbn [m_attrs find fst snd]. change (bytes_eqb L_name L_name) with true. cbn [snd]. rewrite bytes_eqb_refl. reflexivity.
+  - rewrite take_failures_msgs.
+    change (is_msg L_testFinished _) with true.
+    unfold attr_is, get_attr. cbn [m_attrs find fst snd]. change (bytes_eqb L_name L_name) with true. cbn [snd]. rewrite bytes_eqb_refl. reflexivity.
+Qed.
+Lemma take_tests_msgs g : forall r, take_tests g (flat_map (test_msgs dur) g ++ r) = Some r.
+Proof.
+  induction g as [|t g IH]; intro r; [reflexivity|].
+  cbn [flat_map take_tests]. rewrite <- app_assoc, take_test_msgs. apply IH.
+Qed.
+Lemma take_suite_msgs g r : take_suite g (suite_msgs dur g ++ r) = Some r.
+Proof.
+  unfold suite_msgs, take_suite. cbn [app].
+  change (is_msg L_testSuiteStarted (mk_named L_testSuiteStarted (group_name g))) with true. rewrite attr_is_named. cbn [andb].
+  rewrite <- app_assoc, take_tests_msgs. cbn [app].
+  change (is_msg L_testSuiteFinished (mk_named L_testSuiteFinished (group_name g))) with true. rewrite attr_is_named. reflexivity.
+Qed.
+Lemma faithful_messages ts : faithful (segments ts) (messages_of dur ts) = true.
+Proof.
+  unfold messages_of. induction (segments ts) as [|g gs IH]; [reflexivity|].
+  cbn [flat_map faithful]. rewrite take_suite_msgs. exact IH.
+Qed.
+Lemma spec_messages ts : spec_msgs ts (messages_of dur ts) = true.
+Proof. unfold spec_msgs. rewrite balanced_messages, faithful_messages. reflexivity. Qed.
+End SpecFacts.
+
+(* ================= the run against the oracle ================= *)
+Lemma valid_noprint s : valid s = true -> forallb noprint (s_tests s) = true.
+Proof.
+  unfold valid. intro H. apply andb_true_iff in H. destruct H as [_ H].
+  rewrite forallb_forall in *. intros t Ht. specialize (H t Ht).
+  unfold tc_oktest in H. apply andb_true_iff in H. destruct H as [_ H].
+  unfold noprint. rewrite forallb_forall in *. intros x Hx. specialize (H x Hx). destruct x; [discriminate H | reflexivity | reflexivity].
+Qed.
+
+Lemma run_meets_spec_text s trailer : valid s = true -> no_hash trailer = true -> spec s (run s ++ trailer) = true.
+Proof.
+  intros Hv Ht. unfold spec, run. rewrite (stream (s_dur s) (s_tests s) trailer (valid_noprint s Hv) Ht). apply spec_messages.
+Qed.
+Lemma run_meets_spec s : valid s = true -> spec s (run s) = true.
+Proof. intro Hv. rewrite <- (app_nil_r (run s)). apply run_meets_spec_text; [exact Hv | reflexivity]. Qed.
+
+(* ================= the code before the two repairs of D15 ================= *)
+(* (1) a failure reported from another file: the test's own path went into the message value unescaped *)
+Definition old_path_witness : scenario :=
+  {| s_dur := 0; s_tests := [ {| t_group := B "G"%string; t_name := B "t"%string; t_file := B "it's.cpp"%string; t_line := 10; t_ignored := false;
+                                 t_body := [SFail (B "helper.cpp"%string) 3 (B "boom"%string)] |} ] |}.
+Lemma run_old_path_refuted : ~ (forall s, valid s = true -> spec s (run_old_path s) = true).
+Proof. intro H. specialize (H old_path_witness eq_refl). vm_compute in H. discriminate H. Qed.
+(* (2) a group with the empty name: suite started, never finished *)
+Definition old_group_witness : scenario :=
+  {| s_dur := 0; s_tests := [ {| t_group := []; t_name := B "t"%string; t_file := B "a.cpp"%string; t_line := 10; t_ignored := false; t_body := [] |} ] |}.
+Lemma run_old_group_refuted : ~ (forall s, valid s = true -> spec s (run_old_group s) = true).
+Proof. intro H. specialize (H old_group_witness eq_refl). vm_compute in H. discriminate H. Qed.
+(* the old writer's stream for (2) does parse; it is the balance that fails *)
+Lemma run_old_group_unbalanced :
+  match tc_parse (run_old_group old_group_witness) with Some ms => balanced ms = false | None => False end.
+Proof. vm_compute. reflexivity. Qed.
+(* the old writer's stream for (1) is cut by the raw quote: the parser rejects it *)
+Lemma run_old_path_rejected : tc_parse (run_old_path old_path_witness) = None.
+Proof. vm_compute. reflexivity. Qed.
+
 (* ================= example ================= *)
 Definition ex_test1 : test :=
   {| t_group := (B "G'1"%string); t_name := (B "t[1]"%string); t_file := (B "it's.cpp"%string); t_line := 10; t_ignored := false;
@@ -250,3 +391,14 @@ Lemma example_valid :
   valid example_run = true /\ length (messages_of 42 (s_tests example_run)) = 14%nat /\ spec example_run (run example_run) = true
   /\ tc_parse (run example_run) = Some (messages_of 42 (s_tests example_run)).
 Proof. vm_compute. repeat split; reflexivity. Qed.
+
+(* what spec = true says, spelled out *)
+Lemma spec_reads s o : spec s o = true <->
+  exists ms, tc_parse o = Some ms /\ balanced ms = true /\ faithful (segments (s_tests s)) ms = true.
+Proof.
+  unfold spec, spec_msgs. split.
+  - destruct (tc_parse o) as [ms|]; [|discriminate]. intro H. apply andb_true_iff in H. exists ms. tauto.
+  - intros [ms [E [Hb Hf]]]. rewrite E, Hb, Hf. reflexivity.
+Qed.
+Lemma escape_roundtrip s : tc_unescape (tc_escape s) = Some s /\ no_raw_special (tc_escape s) = true.
+Proof. split; [apply unescape_escape | apply escape_no_raw_special]. Qed.
